@@ -245,8 +245,6 @@ def run(ctx, proofs):
         "disagreements_model_vs_impl": len(disagreements),
         "spec_failures": len(failing) + len(tfailing) + len(hyp_bad),
         "open_statements": [
-            "`after into_ssa` has no theorem of its own: that SSA conversion keeps blocks, edges and loop depths and only "
-            "prepends phi statements is C14's subject (C14_ssa_blocks_* on Model.Ssa); here it is checked on every explored graph",
             "the theorems speak about Model.Lift (statement skeletons); that the production lifting of templates and functions "
             "has this block structure is C13_liftfull_skeleton (Model.LiftFull, tied by C13's liftfull stage) - C12's template "
             "stage checks the clauses on the real graphs directly, it does not rely on it",
